@@ -78,6 +78,10 @@ func (pres *Presence) UnmarshalXML(d *xml.Decoder, start xml.StartElement) error
 
 	// Extract packet attributes
 	for _, attr := range start.Attr {
+		if attr.Name.Space != "" && attr.Name.Local != "lang" {
+			// A namespaced attribute (other than xml:lang) is not one of the stanza's own attributes
+			continue
+		}
 		if attr.Name.Local == "id" {
 			pres.Id = attr.Value
 		}
